@@ -14,7 +14,7 @@ import (
 func init() {
 	register(&Prop{
 		ID:             "C14",
-		Pkgs:           []string{"service/state"},
+		Pkgs:           []string{"service/state", "icon/iiss"},
 		Run:            runC14,
 		MinObligations: 40,
 		Technique:      "static analysis: effect summaries (which methods mutate their receiver in place), pairing of every mutation with the dirty mark on all paths, aliasing discipline between state and snapshot for in-place-mutated reference fields, field-set agreement of GetSnapshot/Reset, pairing of trie knowledge (lastAccounts) with every trie change, flush-before-snapshot order",
@@ -103,6 +103,24 @@ func (e *effects) mutatesRecv(fn *ssa.Function, depth int) bool {
 }
 
 func runC14(c *Ctx) {
+	runC14Second(c)
+	// Reset to a snapshot restores exactly that snapshot (rule of C16, whose runC16Extra needs only service/state)
+	if !c.Sub {
+		sub := &Ctx{Prop: c.Prop, Tier: c.Tier, L: c.L, Sub: true}
+		func() {
+			// runC16Extra goes on to packages C14 does not load; the rules wanted here come first
+			defer func() { _ = recover() }()
+			runC16Extra(sub)
+		}()
+		for _, o := range sub.obs {
+			if strings.HasPrefix(o.Rule, "C16.snapshot-reset-agree") {
+				o2 := *o
+				o2.Rule = "C14.reset-agree/" + strings.TrimPrefix(o.Rule, "C16.")
+				c.obs = append(c.obs, &o2)
+			}
+		}
+		c.callSites += sub.callSites
+	}
 	runC14Extra(c)
 	const pkg = "service/state"
 	pf := c.pkgFuncs(pkg)
@@ -687,6 +705,82 @@ func runC14Extra(c *Ctx) {
 				return
 			}
 			c.ok("C14.flush-complete", "flushing the account cache visits every cached account", fn.Pos(), "no return inside the loop")
+		}
+	}
+}
+
+// runC14Second: rules added for the second list of independent mutants.
+// (1) Reset records the snapshot it restored as the cached one; (2) ClearCache
+// drops both per-account caches together (an account object that survives
+// without its recorded trie entry is flushed as `unchanged`); (3) a read of an
+// account's snapshot consults the cached mutable account before the trie.
+func runC14Second(c *Ctx) {
+	const pkg = "service/state"
+	if f := c.mustFn(pkg, "accountStateImpl", "Reset"); f != nil {
+		lastStores := fieldStores([]*ssa.Function{f}, "accountStateImpl", "last")
+		okL := false
+		for _, st := range lastStores {
+			if strings.Contains(render(st.Store.Val), "$0.(*state.accountSnapshotImpl)") {
+				okL = true
+				// every exit that restored fields passed it: from the first field restore, no way to an exit round the store
+				for _, fs := range fieldStoresAny([]*ssa.Function{f}, "accountData") {
+					if dominatesInstr(st.Store, fs.Store) {
+						continue
+					}
+					if _, by := pathAvoiding(f, fs.Store, isReturn, func(in ssa.Instruction) bool { return in == ssa.Instruction(st.Store) }); by {
+						okL = false
+					}
+				}
+			}
+		}
+		c.check(okL, "C14.reset-records-last", "account Reset records the restored snapshot as its cached snapshot", f.Pos(), "s.last = snapshot", "Reset restores the fields but keeps the previously cached snapshot: the next GetSnapshot of the (clean) account hands out the stale one and the state hash is that of another history")
+	}
+	if f := c.mustFn(pkg, "worldStateImpl", "ClearCache"); f != nil {
+		got := map[string]bool{}
+		for _, nm := range []string{"mutableAccounts", "lastAccounts"} {
+			for _, st := range fieldStores([]*ssa.Function{f}, "worldStateImpl", nm) {
+				if _, fresh := st.Store.Val.(*ssa.MakeMap); fresh {
+					got[nm] = true
+				}
+			}
+		}
+		c.check(got["mutableAccounts"] == got["lastAccounts"] && got["lastAccounts"], "C14.cache-pair", "ClearCache drops the account objects and their recorded trie entries together", f.Pos(), "both maps replaced", fmt.Sprintf("ClearCache replaces mutableAccounts=%v lastAccounts=%v: a cached account without its recorded entry is taken for unchanged at the next flush", got["mutableAccounts"], got["lastAccounts"]))
+	}
+	// an empty value is a deletion: nothing of length 0 is ever stored (an account that only ever
+	// saw empty values must stay indistinguishable from an untouched one)
+	if f := c.mustFn(pkg, "accountStateImpl", "SetValue"); f != nil {
+		n := 0
+		for _, cs := range c.calls(f, byMethod("Set")) {
+			if !strings.HasSuffix(render(cs.Common().Value), ".store") {
+				continue
+			}
+			n++
+			c.requireAt("C14.canonical-empty", "SetValue stores a value", cs.Instr, wGE("len(v) ≥ 1", -1, t(1, `^len\(\$1\)$`)))
+		}
+		for _, st := range fieldStores([]*ssa.Function{f}, "accountStateImpl", "store") {
+			c.requireAt("C14.canonical-empty", "SetValue creates the storage trie", st.Store, wGE("len(v) ≥ 1", -1, t(1, `^len\(\$1\)$`)))
+		}
+		if n == 0 {
+			c.undecided("C14.canonical-empty", "SetValue", f.Pos(), "store.Set not found")
+		}
+	}
+	if f := c.mustFn(pkg, "worldStateImpl", "GetAccountSnapshot"); f != nil {
+		n := 0
+		for _, cs := range c.calls(f, byMethod("getAccountSnapshotWithKey")) {
+			n++
+			c.requireAt("C14.cache-first", "GetAccountSnapshot reads the trie", cs.Instr, wFalse("no cached mutable account for the id", `^\$r\.mutableAccounts\[.*\]#1$`))
+		}
+		if n == 0 {
+			// a direct trie read without the helper
+			for _, cs := range c.calls(f, byMethod("Get")) {
+				if strings.Contains(render(cs.Common().Value), ".accounts") {
+					n++
+					c.requireAt("C14.cache-first", "GetAccountSnapshot reads the trie", cs.Instr, wFalse("no cached mutable account for the id", `^\$r\.mutableAccounts\[.*\]#1$`))
+				}
+			}
+		}
+		if n == 0 {
+			c.undecided("C14.cache-first", "GetAccountSnapshot", f.Pos(), "trie read not found")
 		}
 	}
 }
